@@ -163,8 +163,10 @@ def main(pid, tier, seed):
             m = {'kind': 'float_ruleset', 'ruleset': desc, 'flags': flags}
             if pid in ('C01', 'C02'):
                 hist = ptq.run_history(pcfg, [], with_queue=False)
-                bad = ptq.file_disagreements(d, pcfg) if pid == 'C01' and not flags.get('skip_case') else ()
-                p = add(pcfg, hist, False, None, dict(m, cuts=[], groups_disagreeing_with_files=sorted(bad)), bad=bad)
+                bad = set(ptq.file_disagreements(d, pcfg)) if pid == 'C01' and not flags.get('skip_case') else set()
+                if pid == 'C01':
+                    bad |= ptq.base_disagreements(d, pcfg, flags.get('folder', 'Grammar'), flags.get('skip_brute', False))
+                p = add(pcfg, hist, False, None, dict(m, cuts=[], groups_disagreeing_with_files=sorted(map(str, bad))), bad=bad)
                 if pid == 'C01' and fi % 4 == 0:
                     det_jobs.append((p, {'dir': d, 'flags': flags, 'exact': False}))
             else:
